@@ -1,6 +1,6 @@
 /-
   C06 — Instruction semantics match the architecture (x86: the CPU, RISC-V: the manual).
-  Property theorems only (helper lemmas live in Amoco/Proofs/Rv.lean and Amoco/Proofs/Flags.lean).
+  Property theorems only (helper lemmas, RISC-V and x86 flags, live in Amoco/Proofs/Rv.lean).
 
   RISC-V (full): `rv_expected_correct` — for every base mnemonic of RV32I/RV64I, every state and every
   32-bit word that decodes to it, the hand-written DSL term `expected` applied to the operands the
@@ -193,3 +193,74 @@ theorem rv_generated_eq_expected :
   decide +kernel
 
 end Amoco.Rv.Props
+
+/-! ## x86: the shared flag / extension / condition-code helpers (all widths, all operands)
+
+The instruction bodies of x64/asm.py and x86/asm.py are NOT modelled (their agreement with the
+CPU is checked differentially against native execution); these theorems cover the formulas the
+bodies share. -/
+namespace Amoco.Flags.Props
+
+open Amoco.Flags
+
+/-- `AddWithCarry`: the result is the sum modulo 2^n -/
+theorem addWithCarry_result {n : Nat} (x y : BitVec n) (c : Bool) (hn : 0 < n) :
+    (addWithCarry x y c).res.toNat = (x.toNat + y.toNat + c.toNat) % 2 ^ n := awc_res x y c hn
+
+/-- `AddWithCarry`'s carry formula is the architectural CF: unsigned overflow of x + y + c -/
+theorem addWithCarry_carry {m : Nat} (x y : BitVec (m + 1)) (c : Bool) :
+    (addWithCarry x y c).carry = decide (2 ^ (m + 1) ≤ x.toNat + y.toNat + c.toNat) := awc_carry x y c
+
+/-- `AddWithCarry`'s overflow formula is the architectural OF: signed overflow of x + y + c -/
+theorem addWithCarry_overflow {m : Nat} (x y : BitVec (m + 1)) (c : Bool) :
+    (addWithCarry x y c).overflow =
+      decide (x.toInt + y.toInt + (c.toNat : Int) < -((2 ^ m : Nat) : Int) ∨
+              ((2 ^ m : Nat) : Int) ≤ x.toInt + y.toInt + (c.toNat : Int)) := awc_overflow x y c
+
+/-- `SubWithBorrow`'s carry formula is the architectural CF of SUB/SBB/CMP: a borrow is needed -/
+theorem subWithBorrow_carry {m : Nat} (x y : BitVec (m + 1)) (c : Bool) :
+    (subWithBorrow x y c).carry = decide (x.toNat < y.toNat + c.toNat) := swb_carry x y c
+
+/-- `SubWithBorrow`'s overflow formula is the architectural OF: signed overflow of x - y - c -/
+theorem subWithBorrow_overflow {m : Nat} (x y : BitVec (m + 1)) (c : Bool) :
+    (subWithBorrow x y c).overflow =
+      decide (x.toInt - y.toInt - (c.toNat : Int) < -((2 ^ m : Nat) : Int) ∨
+              ((2 ^ m : Nat) : Int) ≤ x.toInt - y.toInt - (c.toNat : Int)) := swb_overflow x y c
+
+/-- `parity8` with the table 0x9669 is the architectural PF: even parity of the low byte
+    (complete table of the 256 bytes, `decide`) -/
+theorem parity8_is_even_parity : ∀ x : BitVec 8, parity8 x = evenParity x := parity8_even
+
+/-- … and with the table 0x6996 (the tree before `fix: C06-x86-parity-flag-even`) it is the
+    complement of PF on every byte -/
+theorem parity8_table_6996_is_odd_parity : ∀ x : BitVec 8, parity8With 0x6996#16 x = !evenParity x :=
+  parity8_6996_odd
+
+/-- `halfcarry` is the architectural AF of an addition: carry out of bit 3 -/
+theorem halfcarry_is_AF {n : Nat} (x y : BitVec n) (c : Bool) :
+    halfcarry x y c = decide (16 ≤ x.toNat % 16 + y.toNat % 16 + c.toNat) := halfcarry_eq x y c
+
+/-- `halfborrow` is the architectural AF of a subtraction: borrow into bit 3 -/
+theorem halfborrow_is_AF {n : Nat} (x y : BitVec n) (c : Bool) :
+    halfborrow x y c = decide (x.toNat % 16 < y.toNat % 16 + c.toNat) := halfborrow_eq x y c
+
+/-- the condition codes evaluated on the flags CMP leaves are the unsigned / signed order relations -/
+theorem condition_codes_after_cmp {m : Nat} (a b : BitVec (m + 1)) :
+    cond 0x2 (cmpFlags a b) = a.ult b ∧ cond 0x3 (cmpFlags a b) = !(a.ult b) ∧
+    cond 0x4 (cmpFlags a b) = (a == b) ∧ cond 0x5 (cmpFlags a b) = (a != b) ∧
+    cond 0x6 (cmpFlags a b) = a.ule b ∧ cond 0x7 (cmpFlags a b) = !(a.ule b) ∧
+    cond 0xC (cmpFlags a b) = a.slt b ∧ cond 0xD (cmpFlags a b) = !(a.slt b) ∧
+    cond 0xE (cmpFlags a b) = a.sle b ∧ cond 0xF (cmpFlags a b) = !(a.sle b) := cc_after_cmp a b
+
+/-- a 32-bit register destination zeroes the upper half of the 64-bit register and keeps the value -/
+theorem r32_destination_zero_extends (old v : BitVec 64) :
+    (writeReg old 32 v).extractLsb' 32 32 = 0#32 ∧ (writeReg old 32 v).extractLsb' 0 32 = v.extractLsb' 0 32 :=
+  ⟨writeReg32_upper old v, writeReg32_lower old v⟩
+
+/-- non-vacuity: 0x7f + 1 overflows signed, not unsigned; 0xff + 1 the other way round; CMP 3,5 -/
+example : (addWithCarry 0x7f#8 0x01#8 false).overflow = true ∧ (addWithCarry 0x7f#8 0x01#8 false).carry = false := by decide
+example : (addWithCarry 0xff#8 0x01#8 false).overflow = false ∧ (addWithCarry 0xff#8 0x01#8 false).carry = true := by decide
+example : cond 0xC (cmpFlags 0xfd#8 0x05#8) = true ∧ cond 0x2 (cmpFlags 0xfd#8 0x05#8) = false := by decide
+
+end Amoco.Flags.Props
+
